@@ -552,3 +552,24 @@ Proof.
   - exists f. split; [|left; reflexivity].
     eapply crash_others_untouched_proof; eauto.
 Qed.
+
+(* the same for ANY plan — in particular for a run in which creating the staging file fails (name too
+   long, directory not writable): no pre-existing path ever holds anything but its original file, except
+   the destination after a completed publish *)
+Lemma preexisting_never_written_any_plan_proof fresh :
+  (forall m, m !! fresh m = None) ->
+  forall pl P chunks fin m0 tr d old,
+  proto_ok P fin -> dest_of P = Some d -> m0 !! d = Some old ->
+  forall p f, m0 !! p = Some f ->
+  exists f', wfs (snd (run_proto pl fresh P chunks fin (W m0 0 tr))) !! p = Some f' /\
+             (f' = f \/ (p = d /\ fdata f' = concat chunks)).
+Proof.
+  intros Hfresh pl P chunks fin m0 tr d old Hok Hdest Hd p f Hp.
+  pose proof (any_plan_allowed fresh Hfresh pl P chunks fin m0 tr d old Hok Hdest Hd) as Hall.
+  destruct (Pos.eq_dec p d) as [->|Hne].
+  - rewrite Hd in Hp. injection Hp as <-.
+    destruct (allowed_dest m0 (fresh m0) (Hfresh m0) d old _ _ Hd Hall) as (f' & H1 & H2).
+    exists f'. split; [exact H1|]. destruct H2 as [H2|H2]; [left; exact H2|right; split; [reflexivity|exact H2]].
+  - exists f. split; [|left; reflexivity].
+    eapply allowed_others; [apply Hfresh|exact Hall|exact Hne|exact Hp].
+Qed.
